@@ -77,27 +77,38 @@ class Dist:
         return (self.name, tuple(params), (('batch_size', size[0]), ('random_state', random_state)))
 
 
-def build(prog):
+def has_explicit_variant(prog):
+    return any(kind in 'OS' and len(pos) >= 2 for _, kind, pos, _, _, _ in prog)
+
+
+def build(prog, decl='ctor'):
+    """decl='ctor': positional parents through the node constructor (declared order = argument order);
+    decl='reversed': Operation/Simulator nodes with >= 2 positional parents are created without parents and their
+    positional edges are declared one by one with explicit indices, highest index first (model.add_edge(p, c, idx))."""
     import elfi
     m = elfi.ElfiModel(name='m')
     for name, kind, pos, named, obs, meta in prog:
-        ps = [m[p] for p in pos]
+        explicit = decl == 'reversed' and kind in 'OS' and len(pos) >= 2
+        ps = [] if explicit else [m[p] for p in pos]
         kw = dict(model=m, name=name)
         named_kws = [k for k, _ in named]
         if kind == 'C':
             node = elfi.Constant(R.const_term(name), **kw)
         elif kind == 'O':
-            node = elfi.Operation(mk_op(name, 'O', len(ps), named_kws, meta), *ps, **kw)
+            node = elfi.Operation(mk_op(name, 'O', len(pos), named_kws, meta), *ps, **kw)
         elif kind == 'P':
             node = elfi.Prior(Dist(name, len(ps)), *ps, **kw)
         elif kind == 'S':
-            node = elfi.Simulator(mk_op(name, 'S', len(ps), named_kws, meta), *ps,
+            node = elfi.Simulator(mk_op(name, 'S', len(pos), named_kws, meta), *ps,
                                   observed=(R.obs_term(name) if obs else None), **kw)
         elif kind == 'M':
             node = elfi.Summary(mk_op(name, 'M', len(ps), named_kws, meta), *ps,
                                 observed=(R.obs_term(name) if obs else None), **kw)
         elif kind == 'D':
             node = elfi.Discrepancy(mk_op(name, 'D', len(ps), named_kws, meta), *ps, **kw)
+        if explicit:
+            for idx in reversed(range(len(pos))):
+                m.add_edge(pos[idx], name, idx)
         for k, p in named:
             m.add_edge(p, name, k)
         if meta:
@@ -105,7 +116,7 @@ def build(prog):
     return m
 
 
-def judge(prog, outs, supplied, bs, model=None):
+def judge(prog, outs, supplied, bs, model=None, decl='ctor'):
     """-> None or (signature, detail)."""
     ref = R.Ref(prog, bs)
     bad_obs = ref.bad_observed()
@@ -114,7 +125,7 @@ def judge(prog, outs, supplied, bs, model=None):
         exp = 'value'
     except R.Reject as e:
         exp, exp_vals, exp_calls = 'reject', None, None
-    m = model if model is not None else build(prog)
+    m = model if model is not None else build(prog, decl)
     CALLS.clear()
     wv = {n: R.given_term(n) for n in supplied} or None
     got_exc = None
@@ -124,7 +135,7 @@ def judge(prog, outs, supplied, bs, model=None):
     except Exception as e:  # any exception is a rejection
         got, got_exc = 'reject', e
     calls = dict(CALLS)
-    what = {'prog': prog, 'outputs': outs, 'with_values': supplied, 'bs': bs}
+    what = {'prog': prog, 'outputs': outs, 'with_values': supplied, 'bs': bs, 'decl': decl}
     if exp == 'reject':
         if got == 'value':
             return ('C03:observed-data-depends-on-stochastic-node-but-evaluated', what)
@@ -184,15 +195,16 @@ def run_chunk(case):
     with pin.pinned(0):
         for prog in progs:
             nprog += 1
-            model = build(prog)
-            for outs, sup in out_wv_combos(prog, case['mode']):
-                for bs in case['bss']:
-                    n += 1
-                    v = judge(prog, outs, sup, bs, model=model)
-                    if v:
-                        r = bad(v[0], v[1])
-                        r['evals'] = n
-                        return r
+            for decl in (('ctor', 'reversed') if has_explicit_variant(prog) else ('ctor',)):
+                model = build(prog, decl)
+                for outs, sup in out_wv_combos(prog, case['mode'] if decl == 'ctor' else 'light'):
+                    for bs in case['bss']:
+                        n += 1
+                        v = judge(prog, outs, sup, bs, model=model, decl=decl)
+                        if v:
+                            r = bad(v[0], v[1])
+                            r['evals'] = n
+                            return r
             classes.add(''.join(r[1] for r in prog))
     r = ok(outcome=None, programs=nprog)
     r.update(evals=n, distinct=n, kinds=sorted(classes))
@@ -204,7 +216,7 @@ def run_single(case):
     prog = [tuple(tuple(x) if isinstance(x, list) else x for x in r) for r in case['prog']]
     prog = [(r[0], r[1], tuple(r[2]), tuple(tuple(x) for x in r[3]), bool(r[4]), bool(r[5])) for r in prog]
     with pin.pinned(0):
-        v = judge(prog, list(case['outputs']), list(case['with_values']), case.get('bs', 2))
+        v = judge(prog, list(case['outputs']), list(case['with_values']), case.get('bs', 2), decl=case.get('decl', 'ctor'))
     return bad(v[0], v[1]) if v else ok()
 
 
@@ -270,7 +282,7 @@ def run(ctx):
         if r.get('viol') and isinstance(r['viol'].get('detail'), dict) and 'prog' in r['viol']['detail']:
             d = r['viol']['detail']
             return {'kind': 'single', 'prog': d['prog'], 'outputs': d['outputs'], 'with_values': d['with_values'],
-                    'bs': d['bs']}
+                    'bs': d['bs'], 'decl': d.get('decl', 'ctor')}
         return case
     from .. import par
 
@@ -304,4 +316,6 @@ def run(ctx):
         'some observed data of the graph depends on a stochastic node but is not needed for the request, both '
         'rejecting the graph and evaluating it correctly are accepted',
         'node names are chosen so that creation order differs from name order',
+        'edge declaration: positional parents through the constructor, and (Operation/Simulator nodes with >= 2 positional '
+        'parents) additionally one by one with explicit indices in descending order via model.add_edge',
     ]
